@@ -262,6 +262,48 @@ class Program:
                     raise ValueError
         raise ValueError("not const")
 
+    def class_const(self, cls, name):
+        """value of a class-level table: the class body's simple assignments are folded in order (later ones may use earlier ones,
+        e.g. `t = [..]; t = [x + "/" for x in t] + t`); ValueError if it is not a constant"""
+        env = {}
+        for node in cls.node.body:
+            tgts, val = [], None
+            if isinstance(node, ast.Assign):
+                tgts, val = [t.id for t in node.targets if isinstance(t, ast.Name)], node.value
+            elif isinstance(node, ast.AnnAssign) and isinstance(node.target, ast.Name) and node.value is not None:
+                tgts, val = [node.target.id], node.value
+            for t in tgts:
+                try:
+                    env[t] = self._fold_env(cls.module, val, env)
+                except (ValueError, TypeError):
+                    env.pop(t, None)
+        if name not in env:
+            raise ValueError("not a class constant: %s" % name)
+        return env[name]
+
+    def _fold_env(self, mod, node, env):
+        if isinstance(node, ast.Name) and node.id in env:
+            return env[node.id]
+        if isinstance(node, (ast.Tuple, ast.List)):
+            vals = [self._fold_env(mod, e, env) for e in node.elts]
+            return tuple(vals) if isinstance(node, ast.Tuple) else list(vals)
+        if isinstance(node, ast.BinOp) and isinstance(node.op, (ast.Add, ast.Mult)):
+            a, b = self._fold_env(mod, node.left, env), self._fold_env(mod, node.right, env)
+            try:
+                return a + b if isinstance(node.op, ast.Add) else a * b
+            except Exception:
+                raise ValueError
+        if isinstance(node, ast.ListComp) and len(node.generators) == 1 and not node.generators[0].is_async and isinstance(node.generators[0].target, ast.Name):
+            g = node.generators[0]
+            out = []
+            for item in self._fold_env(mod, g.iter, env):
+                e2 = dict(env)
+                e2[g.target.id] = item
+                if all(self._fold_env(mod, c, e2) for c in g.ifs):
+                    out.append(self._fold_env(mod, node.elt, e2))
+            return out
+        return self.fold_const(mod, node)
+
     def const_value(self, mod, name, _seen=None):
         """value of a module-level name (following imports); ValueError if unknown"""
         _seen = _seen or set()
